@@ -406,6 +406,44 @@ fn many_hunks(run: &Run) {
     }
 }
 
+/// Scale in the number of versions: a complete version under a chain of 130 interrupted ones
+/// (a backup killed again and again at the same place), written by the harness; the newest and
+/// a few others are listed and compared with the rule.
+fn long_chain(run: &Run) {
+    let sc = Scratch::new("c08chain");
+    let root = sc.join("arch");
+    fmt06::write_archive_header(&root);
+    let paths: Vec<String> = ["/a", "/b", "/c", "/d", "/e", "/f"].iter().map(|s| s.to_string()).collect();
+    let full: Vec<Vec<Value>> = paths.chunks(2).map(|c| c.iter().map(|p| symlink_entry(p, &format!("b0:{p}"))).collect()).collect();
+    fmt06::write_band(&root, 0, &full, true);
+    let n = 130u32;
+    for id in 1..=n {
+        // every interrupted version got as far as its first hunk; every 40th one a little further
+        let upto = if id % 40 == 0 { 2 } else { 1 };
+        let hv: Vec<Vec<Value>> = paths.chunks(2).take(upto).map(|c| c.iter().map(|p| symlink_entry(p, &format!("b{id}:{p}"))).collect()).collect();
+        fmt06::write_band(&root, id, &hv, false);
+    }
+    let raw = fmt06::read_archive(&root, false);
+    let replay = json!({"long_chain": true});
+    for id in [n, n - 1, 101, 100, 41, 40, 1] {
+        let model = stitch_model(&raw, id);
+        let ic = Icept::with_budget(&root, Mode::Log, 0, 200_000);
+        let l = cs::list(ic.transport(1), Some(id), "/", &[]);
+        run.eval();
+        let got: Option<Vec<(&str, Option<&str>)>> = l.value().map(|v| v.iter().map(|e| (e.apath.as_str(), e.target.as_deref())).collect());
+        let want: Vec<(&str, Option<&str>)> = model.iter().map(|(_, e)| (e.apath.as_str(), e.target.as_deref())).collect();
+        if ic.over_budget() || got.as_ref() != Some(&want) {
+            run.violation(
+                "listing-differs-from-stitching-rule",
+                format!("complete b0000 under {n} interrupted versions that each stopped after /b (every 40th after /d): listing b{id:04} gave {got:?}, the rule gives {want:?} ({})", l.describe()),
+                replay.clone(),
+            );
+            return;
+        }
+        run.count("listings_through_a_chain_of_more_than_100_interrupted_versions", (id > 100) as u64);
+    }
+}
+
 pub fn run(tier: Tier, replay: Option<Value>) -> i32 {
     let run = Run::new("C08", "exploration", tier, replay.clone());
     let p4 = sorted_paths(vec!["/a".into(), "/a/x".into(), "/ab".into(), "/é".into()]);
@@ -437,13 +475,15 @@ pub fn run(tier: Tier, replay: Option<Value>) -> i32 {
             check_archive(&run, &root, b as u32, true, r, &what);
         } else if r.get("many_hunks").is_some() {
             many_hunks(&run);
+        } else if r.get("long_chain").is_some() {
+            long_chain(&run);
         } else {
             random_case(&run, r["case"].as_u64().unwrap_or(0));
         }
         return run.finish("replay", &[], None, &[]);
     }
     run.sample(|| json!({"path_alphabets": {"P4": p4, "P3": p3, "P2": p2}, "band_states_P4": band_states(4).len(), "band_states_P3": band_states(3).len()}));
-    super::alongside(&run, "the many-hunks listing", || many_hunks(&run), || {
+    super::alongside(&run, "the many-hunks listing and the long chain", || { many_hunks(&run); long_chain(&run); }, || {
         exhaustive(&run, 2, 4, &p4, 0);
         exhaustive(&run, 3, 3, &p3, 0);
         exhaustive(&run, 2, 3, &p3, 1);
@@ -458,9 +498,9 @@ pub fn run(tier: Tier, replay: Option<Value>) -> i32 {
     });
     let exhaustive_ok = run.counter("exhaustive_spaces_cut_short") == 0;
     run.finish(
-        "one harness-written archive of three versions with more than 10 000 one-entry hunks (complete; incomplete stopping in the second index subdirectory; incomplete with 5 hunks); then archives written directly in the documented format by the harness: every assignment of {absent, every subset of a P-path alphabet x every split into consecutive non-empty hunks (or no hunk) x {complete, incomplete}} to B bands, exhaustively for (B=2,P=4) and (B=3,P=3), for (B=2,P=3) with one EMPTY hunk (a json [] as old versions wrote) inserted at every position, and for (B=3,P=2) with head-less band directories (empty; with hunks; with hunks and a tail — what a killed band creation or a killed version removal leaves) as additional states [thorough: also (B=4,P=2), (B=3,P=4), (B=3,P=2) with an empty hunk]; each entry is a symlink whose target names its band and path. For every existing N the real iter_entries(Specified(N)) must equal the executable stitching rule over the raw files (paths and targets), be strictly increasing under the C11 order model and finish within 50000 storage operations; on a 1-in-16 sample also with 5 subtrees and 4 exclusion sets against the filtered model. Random archives beyond (<=6 bands, <=12 paths, random splits, an empty hunk inserted in a third of the bands, a removed hunk file in a third of the archives). Distinct non-trivial = archives with an incomplete band and >= 2 existing bands (exhaustive part, by index) + random cases.",
+        "one harness-written archive of three versions with more than 10 000 one-entry hunks (complete; incomplete stopping in the second index subdirectory; incomplete with 5 hunks); one of a complete version under a chain of 130 interrupted ones; then archives written directly in the documented format by the harness: every assignment of {absent, every subset of a P-path alphabet x every split into consecutive non-empty hunks (or no hunk) x {complete, incomplete}} to B bands, exhaustively for (B=2,P=4) and (B=3,P=3), for (B=2,P=3) with one EMPTY hunk (a json [] as old versions wrote) inserted at every position, and for (B=3,P=2) with head-less band directories (empty; with hunks; with hunks and a tail — what a killed band creation or a killed version removal leaves) as additional states [thorough: also (B=4,P=2), (B=3,P=4), (B=3,P=2) with an empty hunk]; each entry is a symlink whose target names its band and path. For every existing N the real iter_entries(Specified(N)) must equal the executable stitching rule over the raw files (paths and targets), be strictly increasing under the C11 order model and finish within 50000 storage operations; on a 1-in-16 sample also with 5 subtrees and 4 exclusion sets against the filtered model. Random archives beyond (<=6 bands, <=12 paths, random splits, an empty hunk inserted in a third of the bands, a removed hunk file in a third of the archives). Distinct non-trivial = archives with an incomplete band and >= 2 existing bands (exhaustive part, by index) + random cases.",
         &["fmt06 writer produces what doc/format.md describes (cross-checked: conserve lists them)", "stitching rule as stated in oracle::stitch_model"],
         Some(exhaustive_ok),
-        &[("listings_compared", 1000), ("listings_spanning_several_bands", 100), ("filtered_listings_compared", 100), ("random_archives", 100), ("listings_of_versions_with_more_than_10000_hunks", 3)],
+        &[("listings_compared", 1000), ("listings_spanning_several_bands", 100), ("filtered_listings_compared", 100), ("random_archives", 100), ("listings_of_versions_with_more_than_10000_hunks", 3), ("listings_through_a_chain_of_more_than_100_interrupted_versions", 3)],
     )
 }
